@@ -72,6 +72,10 @@ func (m *Module) HandleDagazQuadSample(ctx context.Context, msg hwebsocket.Msg) 
 
 	for _, newQuad := range newQuadSample.Samples {
 		quad := NewQuadFromProtobuf(newQuad)
+		if !quad.Center.IsFinite() || !quad.Extents.IsFinite() {
+			// a sample that is not a finite quad cannot be indexed
+			continue
+		}
 		m.state.SpatialPartition.InsertQuad(quad)
 	}
 
@@ -92,7 +96,10 @@ func (m *Module) HandleDagazGetGroundPlane(ctx context.Context, respond hwebsock
 	}
 
 	ray := NewRayFromProtobuf(req.Ray)
-	quadHit, _ := m.state.SpatialPartition.IntersectQuad(ray)
+	var quadHit *Quad
+	if ray.From.IsFinite() && ray.To.IsFinite() {
+		quadHit, _ = m.state.SpatialPartition.IntersectQuad(ray)
+	}
 
 	if quadHit == nil {
 		// create an invalid quad to be able to have a response:
@@ -126,7 +133,10 @@ func (m *Module) HandleDagazGetRegion(ctx context.Context, respond hwebsocket.Re
 			WithTag("msg_type", msg.Type)
 	}
 
-	regionQuads := m.state.SpatialPartition.GetRegion(NewVector3fFromProtobuf(req.Min), NewVector3fFromProtobuf(req.Max))
+	var regionQuads []*Quad
+	if min, max := NewVector3fFromProtobuf(req.Min), NewVector3fFromProtobuf(req.Max); min.IsFinite() && max.IsFinite() {
+		regionQuads = m.state.SpatialPartition.GetRegion(min, max)
+	}
 	regionQuadsProtobuf := make([]*dagazpb.Quad, len(regionQuads))
 	for i := 0; i < len(regionQuads); i++ {
 		regionQuadsProtobuf[i] = regionQuads[i].ToProtobuf()
